@@ -78,9 +78,9 @@ fn clean_history(out: &mut Out, rng: &mut Rng, batch_size: u8, nrounds: usize, i
 }
 
 /// fault_percentage p: every reply verifies in full or not at all; count the failing share
-fn greased(out: &mut Out, rng: &mut Rng, p: u8, want_replies: usize, idx: u64) -> (u64, u64) {
+fn greased(out: &mut Out, rng: &mut Rng, p: u8, batch_size: u8, want_replies: usize, idx: u64) -> (u64, u64) {
     let mut cfg = HConfig::new(&rng.bytes(32));
-    cfg.batch_size = *rng.pick(&[1u8, 8, 64]);
+    cfg.batch_size = batch_size;
     cfg.fault_percentage = p;
     let nsocks = 32;
     let Ok(mut d) = Driver::new(cfg.clone(), nsocks) else {
@@ -132,33 +132,46 @@ pub fn run(ctx: &Ctx, out: &mut Out, rng: &mut Rng) {
             }
         }
     }
-    // (b) fault injection share: p in {10} (quick, shard 0..3) / 1..=50 (thorough), >= 2000 replies each
+    // (b) fault injection share: windows of >= 2000 replies per (p, batch_size). Several windows
+    // with large batches per p, so that a fault decision shared by a whole batch (same mean,
+    // inflated variance) shows up as windows outside the binomial 6-sigma band.
     let ps: Vec<u8> = if ctx.thorough { (1..=50).collect() } else { vec![10, 1, 50, 25] };
-    for (i, p) in ps.iter().enumerate() {
+    let sizes: Vec<u8> = if ctx.thorough { vec![64, 64, 64, 16, 8, 1] } else { vec![64, 64, 64, 16] };
+    let mut windows: Vec<(u8, u8)> = Vec::new();
+    for p in &ps {
+        for b in &sizes {
+            windows.push((*p, *b));
+        }
+    }
+    for (i, (p, bs)) in windows.iter().enumerate() {
         if i as u64 % ctx.nshards != ctx.shard {
             continue;
         }
-        let (total, failed) = greased(out, rng, *p, 2_400, i as u64);
+        let (total, failed) = greased(out, rng, *p, *bs, 2_400, i as u64);
         if total >= 2_000 {
             let pf = *p as f64 / 100.0;
             let sigma = (pf * (1.0 - pf) / total as f64).sqrt();
             let share = failed as f64 / total as f64;
-            out.obs("greased_percentages_tested", 1);
+            out.obs("greased_windows_tested", 1);
             let e = out.extra.entry("grease_shares").or_insert_with(|| json!([]));
-            e.as_array_mut().unwrap().push(json!({"p": p, "replies": total, "failing": failed, "share": share, "sigma": sigma}));
+            e.as_array_mut().unwrap().push(json!({"p": p, "batch_size": bs, "replies": total, "failing": failed, "share": share, "sigma": sigma, "deviation_in_sigma": (share - pf) / sigma}));
             if (share - pf).abs() > 6.0 * sigma {
                 out.violation(
                     &format!("C02 grease share-off p={}", p),
-                    &format!("fault_percentage {}: {} of {} replies fail verification (share {:.4}, expected {:.4} +- 6*{:.4})", p, failed, total, share, pf, sigma),
-                    json!({"kind":"greased","p":p}),
+                    &format!("fault_percentage {} (batch_size {}): {} of {} replies fail verification (share {:.4}, expected {:.4} +- 6*{:.4})", p, bs, failed, total, share, pf, sigma),
+                    json!({"kind":"greased","p":p,"batch_size":bs}),
                 );
             }
         } else if total > 0 {
             out.inconclusive("too few greased replies");
         }
+        if !ctx.time_left() {
+            out.note("grease loop cut by wall budget");
+            break;
+        }
     }
     out.floor("replies_verified", 500);
     out.floor("batches_ge2_classic", 20);
     out.floor("batches_ge2_ietf", 20);
-    out.floor("greased_percentages_tested", 2);
+    out.floor("greased_windows_tested", 8);
 }
